@@ -2564,13 +2564,18 @@ class Group(System):
             initialized, the driver for this model must be supplied in order to properly
             initialize the approximations.
         """
+        # This can be called while a total jacobian is being approximated (the sparsity of a dynamic
+        # total coloring is computed during the first linearization), so the active total jacobian
+        # must be put back afterwards instead of being dropped.
+        saved_tot_jac = self._tot_jac
+
         if driver is not None and self.pathname == '' and self._owns_approx_jac:
             self._tot_jac = _TotalJacInfo(driver._problem(), None, None, 'flat_dict', approx=True)
 
         try:
             super().run_linearize(sub_do_ln=sub_do_ln)
         finally:
-            self._tot_jac = None
+            self._tot_jac = saved_tot_jac
 
     def _apply_nonlinear(self):
         """
